@@ -69,7 +69,7 @@ def error_objects(draw):
 errors = st.one_of(
     error_objects(), error_objects(),
     st.dictionaries(gen.json_keys(), values, min_size=1, max_size=1),
-    st.text(min_size=1, max_size=12),
+    st.text(min_size=1, max_size=12).filter(lambda t: t != ABSENT),
     st.sampled_from(["code", "error code 5", ["code"], ["x", "code"], {"code": -32601}, {"reason": "r"}, {"code": None}]),
     st.integers(), st.floats(allow_nan=False, allow_infinity=False), st.booleans(),
     st.lists(values, min_size=0, max_size=3),
@@ -88,6 +88,7 @@ def error_cases(draw):
         "path": draw(st.sampled_from(PATHS)),
         "pos": draw(st.integers(0, 3)),
         "n": draw(st.integers(1, 4)),
+        "repeat": draw(st.sampled_from([0, 0, 1, 2])),
     }
 
 
@@ -115,7 +116,7 @@ def code_grid(tier):
                     e["trace"] = "t"
                 if shape == "data":
                     e["data"] = [code, None]
-                yield {"error": e, "v2": v2, "result": ABSENT, "id": 1, "path": path, "pos": code % 3, "n": 3}
+                yield {"error": e, "v2": v2, "result": ABSENT, "id": 1, "path": path, "pos": code % 3, "n": 3, "repeat": code % 3}
 
 
 def build_reply(case):
@@ -164,17 +165,32 @@ def access(case, reply):
     results = mc()
     if len(results) != n:
         fail("C06/batch-length", "MultiCall yielded %d results for %d replies" % (len(results), n))
+    repeat = case.get("repeat", 0)
+
+    def read_index():
+        return results[pos]
+
+    def read_iter():
+        it = iter(results)
+        for i in range(pos):
+            v = next(it)
+            if v != ["ok", i]:
+                fail("C06/batch-neighbour", "neighbour result %d is %r" % (i, v))
+        return next(it)
+
+    first, second = (read_index, read_iter) if path == "batch-index" else (read_iter, read_index)
     if path == "batch-index":
         for i in range(n):
             if i != pos and results[i] != ["ok", i]:
                 fail("C06/batch-neighbour", "neighbour result %d is %r" % (i, results[i]))
-        return ("value", results[pos], None)
-    it = iter(results)
-    for i in range(pos):
-        v = next(it)
-        if v != ["ok", i]:
-            fail("C06/batch-neighbour", "neighbour result %d is %r" % (i, v))
-    return ("value", next(it), None)
+    if repeat:
+        # reading a position again must behave like the first time
+        try:
+            first()
+        except J.ProtocolError:
+            pass
+        return ("value", (first if repeat == 1 else second)(), None)
+    return ("value", first(), None)
 
 
 def shape_of(error):
@@ -197,6 +213,10 @@ def oracle(case):
     path = case["path"]
     if "error" in reply and error is not None and not error:
         # falsy but not null: outside the statement (R5)
+        from vlib.core import Skip
+        raise Skip()
+    if "error" not in reply and "result" not in reply:
+        # neither member: not a reply the statement speaks about
         from vlib.core import Skip
         raise Skip()
     shape = shape_of(error) if error else "success"
@@ -271,6 +291,8 @@ def oracle(case):
             nt = True
     else:
         nt = True
+    if case.get("repeat") and path.startswith("batch"):
+        classes.append("repeated-access")
     return Info(nt=nt, classes=classes, sample={"reply": reply, "path": path})
 
 
